@@ -52,6 +52,8 @@ func nillable(typ types.Type) bool {
 		return true
 	case *types.Named, *types.Alias, *types.TypeParam:
 		return nillable(t.Underlying())
+	case *types.Basic:
+		return t.Kind() == types.UnsafePointer
 	}
 	return false
 }
